@@ -127,6 +127,15 @@ def run(facts, rep, tier, ctx):
         if w17.present():
             c07.physical_gate(facts, _Pf17(rep, ("A/" if w17.asyncw else "") + "R17.4t"), w17, D)
             _c12k.kind_preserving_relabels(facts, rep, w17, ("A/" if w17.asyncw else "") + "R17.2k", only=("create_dir", "create_dir_all"))
+    # (an adapter's create_dir does nothing optional on the way: a time setter called from it — "bump the parent's mtime" — answers
+    # NotSupported on backends that keep the trait default and fails a create that has already happened; C19 R19.4w)
+    from . import c19 as _c19w
+    from ..report import Report as _Rp17
+    scr17 = _Rp17("w")
+    _c19w.run(facts, scr17, "quick", ctx)
+    for o in scr17.obligations:
+        if o["rule"] in ("R19.4w", "A/R19.4w"):
+            rep.ob(o["rule"].replace("R19.4w", "R17.4s"), o["fn"], o["key"].split("|")[2], o["ok"], o["detail"], o["loc"])
     c09.table_u(facts, rep, ws, "R17.4o", only=("create_dir",))
     c09.materialisation_rules(facts, rep, ws, "R17.4o")
     c10.marker_rules(facts, rep, ws, prefix="R17.4m", only=("R10.3", "R10.2"))
